@@ -144,8 +144,7 @@ Print Assumptions before_page_general.
 (* paging_covers: any page size n > 0, an order whose keys distinguish all matches: the first
    page followed by After(last sort value) pages until an empty page is exactly the complete
    ranking: every match once, in order.  (The fuel |hits| + 1 suffices: never OutOfFuel.)
-   The Before chain is the mirror image through before_page; it is checked by the engine's
-   oracle, the chain induction is stated here for After. *)
+   The Before chain is paging_covers_before below. *)
 Theorem paging_covers : forall (B : Type) (consume : hit -> B -> B) n order aggf b0 hits,
   0 < n ->
   keys_distinct (descs_of order) (prepare_all (order_fields order ++ aggf) order 0 hits) ->
@@ -161,3 +160,25 @@ Example paging_covers_nonvacuous :
   keys_distinctb (descs_of ex_order2) (prepare_all (order_fields ex_order2) ex_order2 0 ex12u) = true.
 Proof. exact paging_covers_ex. Qed.
 Print Assumptions paging_covers_nonvacuous.
+
+(* paging_covers_before: any page size n > 0, an order whose keys distinguish all matches, x any
+   hit of the ranking (ranking = pre ++ x :: suf; in particular the last hit, suf = []): chained
+   Before(sort value of x), Before(sort value of the first hit of the previous page), ... until an
+   empty page, the pages prepended, is exactly pre: every match in front of x once, in ranking
+   order, each page in forward order.  Fuel |hits| suffices: never OutOfFuel. *)
+Theorem paging_covers_before : forall (B : Type) (consume : hit -> B -> B) n order aggf b0 hits,
+  0 < n ->
+  keys_distinct (descs_of order) (prepare_all (order_fields order ++ aggf) order 0 hits) ->
+  forall pre x suf, ranking order aggf hits = pre ++ x :: suf ->
+  before_chain consume (length hits) n order aggf b0 hits (h_sort x) = Ok pre.
+Proof. exact @paging_covers_before_all. Qed.
+Print Assumptions paging_covers_before.
+
+(* non-vacuous: pages of 5 backwards from the last of the twelve hits of ex12u *)
+Example paging_covers_before_nonvacuous :
+  rmap (map h_doc) (before_chain (fun _ (b : unit) => b) 12 5 ex_order2 [] tt ex12u [[4]; [2]])
+    = Ok [110; 105; 100; 108; 103; 111; 106; 101; 109; 104; 107] /\
+  map h_doc (ranking ex_order2 [] ex12u) = [110; 105; 100; 108; 103; 111; 106; 101; 109; 104; 107; 102] /\
+  map h_sort (skipn 11 (ranking ex_order2 [] ex12u)) = [[[4]; [2]]].
+Proof. exact paging_covers_before_ex. Qed.
+Print Assumptions paging_covers_before_nonvacuous.
